@@ -12,6 +12,7 @@ import JediVerif.Gen.AsmX86
 import JediVerif.Gen.AsmA64
 import JediVerif.Gen.AsmV6M
 import JediVerif.Impl.FpUtils
+import JediVerif.Impl.LimbsMem
 
 namespace Jedi.Driver
 
@@ -54,6 +55,48 @@ deriving Repr
 /-- dword size in bits of the build -/
 def Cfg.dwordBits (c : Cfg) : Nat := 2 * c.wordBits
 
+/-! ### memory-level models of the portable word layer (`Impl/LimbsMem.lean`)
+
+The op lines of the groups "bigint" and "fp" carry an alias token (`n`: the output is a separate object, `a` / `b` / `ab`:
+the output object IS the first / second / both operands, and the harness really passes the same object).  The imperative
+model — object store, the C++ loops as sequences of word reads and writes — is run with the same object ids and must give
+the REAL output token for token.  Theorems (`Properties/C18c.lean`): for every pattern the C++ signature permits the model
+leaves the limbs of the pure model of `Impl/Limbs.lean` in the output object, aliased or not. -/
+
+/-- what the harness puts into a fresh output object: `memset(&o, 0xA5, sizeof(o))`, as a `wb`-bit word -/
+def garbageWord (wb : Nat) : Nat := (2 ^ wb - 1) / 255 * 0xA5
+
+def memTie (what : String) (model got : List String) : Except String Unit :=
+  expectToks s!"{what}: LimbsMem model differs" model got
+
+/-- `BigInt<bits>::add` / `subtract` (loops over `dwords[]`), alias patterns `n`, `a` (`b` is `__restrict`) -/
+def memBigintAddSub (cfg : Cfg) (op : String) (bits a b : Nat) (al : String) (out : List String) : Except String Unit := do
+  if al != "n" && al != "a" then return ()
+  match Impl.Mem.aliasIds al with
+  | none => throw s!"{op}: bad alias token {al}"
+  | some (res, ia, ib) =>
+    let db := cfg.dwordBits
+    let D := 2 ^ db
+    let n := (bits + db - 1) / db
+    let s := Impl.Mem.initStore D n (garbageWord db) a b 0 0
+    let r := if op == "bi_add" then Impl.Mem.add D n res ia ib s else Impl.Mem.sub D n res ia ib s
+    memTie s!"{op} {al}" [if r.2 != 0 then "1" else "0", toHex (bits / 4) (Impl.Mem.objVal D n r.1 res)] out
+
+/-- `shift_left_in_word<1>`, `shift_right_in_word<1>`, `shift_left`, `shift_right` (loops over `words[]`), patterns `n`, `a` -/
+def memBigintShift (cfg : Cfg) (op : String) (bits a amt : Nat) (al : String) (out : List String) : Except String Unit := do
+  match Impl.Mem.aliasIds al with
+  | none => throw s!"{op}: bad alias token {al}"
+  | some (res, ia, _) =>
+    let wb := cfg.wordBits
+    let W := 2 ^ wb
+    let n := (bits + wb - 1) / wb
+    let s := Impl.Mem.initStore W n (garbageWord wb) a 0 0 0
+    let r := if op == "bi_shl1" then Impl.Mem.shl1 W n res ia s
+      else if op == "bi_shr1" then Impl.Mem.shr1 W n res ia s
+      else if op == "bi_shl" then Impl.Mem.shiftLeft wb n res ia amt s
+      else Impl.Mem.shiftRight wb n res ia amt s
+    memTie s!"{op} {al}" [toHex 16 r.2, toHex (bits / 4) (Impl.Mem.objVal W n r.1 res)] out
+
 /-! ### word layer -/
 
 def judgeBigint (cfg : Cfg) (op : String) (out : List String) : P Unit := do
@@ -74,37 +117,41 @@ def judgeBigint (cfg : Cfg) (op : String) (out : List String) : P Unit := do
     let wholeW := bits % cfg.wordBits == 0
     match op with
     | "bi_add" =>
-      let a ← nextHex; let b ← nextHex; let _ ← next
+      let a ← nextHex; let b ← nextHex; let al ← next
       match out with
       | [cy, v] =>
         if v != hx ((a + b) % m) then throw s!"bi_add value: expected {hx ((a+b)%m)} got {v}"
         if whole && cy != toString ((a + b) / m) then throw s!"bi_add carry: expected {(a+b)/m} got {cy}"
       | _ => throw "bi_add: malformed output"
+      memBigintAddSub cfg op bits a b al out
     | "bi_sub" =>
-      let a ← nextHex; let b ← nextHex; let _ ← next
+      let a ← nextHex; let b ← nextHex; let al ← next
       match out with
       | [bw, v] =>
         let ev := (a + m - b) % m
         if v != hx ev then throw s!"bi_sub value: expected {hx ev} got {v}"
         if whole && bw != (if a < b then "1" else "0") then throw s!"bi_sub borrow: got {bw}"
       | _ => throw "bi_sub: malformed output"
+      memBigintAddSub cfg op bits a b al out
     | "bi_shl1" =>
-      let a ← nextHex; let _ ← next
+      let a ← nextHex; let al ← next
       match out with
       | [w, v] =>
         if v != hx ((2 * a) % m) then throw s!"bi_shl1 value: expected {hx ((2*a)%m)} got {v}"
         if wholeW && w != toHex 16 ((2 * a) / m) then throw s!"bi_shl1 out word: got {w}"
       | _ => throw "bi_shl1: malformed output"
+      memBigintShift cfg op bits a 1 al out
     | "bi_shr1" =>
-      let a ← nextHex; let _ ← next
+      let a ← nextHex; let al ← next
       match out with
       | [w, v] =>
         if v != hx (a / 2) then throw s!"bi_shr1 value: expected {hx (a/2)} got {v}"
         -- shifted-out word: the low bit moved to the top of a word
         if w != toHex 16 ((a % 2) * 2 ^ (cfg.wordBits - 1)) then throw s!"bi_shr1 out word: got {w}"
       | _ => throw "bi_shr1: malformed output"
+      memBigintShift cfg op bits a 1 al out
     | "bi_shl" =>
-      let a ← nextHex; let amt ← nextNat; let _ ← next
+      let a ← nextHex; let amt ← nextNat; let al ← next
       match out with
       | [w, v] =>
         if v != hx ((a * 2 ^ amt) % m) then throw s!"bi_shl value: expected {hx ((a*2^amt)%m)} got {v}"
@@ -115,8 +162,9 @@ def judgeBigint (cfg : Cfg) (op : String) (out : List String) : P Unit := do
         let ew := if wholeW ∧ wo < nW then ((a / 2 ^ (cfg.wordBits * (nW - 1 - wo))) % 2 ^ cfg.wordBits) / 2 ^ (cfg.wordBits - bo) else 0
         if wholeW && w != toHex 16 ew then throw s!"bi_shl out word: expected {toHex 16 ew} got {w}"
       | _ => throw "bi_shl: malformed output"
+      memBigintShift cfg op bits a amt al out
     | "bi_shr" =>
-      let a ← nextHex; let amt ← nextNat; let _ ← next
+      let a ← nextHex; let amt ← nextNat; let al ← next
       match out with
       | [w, v] =>
         if v != hx (a / 2 ^ amt) then throw s!"bi_shr value: expected {hx (a / 2^amt)} got {v}"
@@ -126,6 +174,7 @@ def judgeBigint (cfg : Cfg) (op : String) (out : List String) : P Unit := do
         let ew := if wholeW ∧ wo < nW then (((a / 2 ^ (cfg.wordBits * wo)) % 2 ^ cfg.wordBits) * 2 ^ (cfg.wordBits - bo)) % 2 ^ cfg.wordBits else 0
         if wholeW && w != toHex 16 ew then throw s!"bi_shr out word: expected {toHex 16 ew} got {w}"
       | _ => throw "bi_shr: malformed output"
+      memBigintShift cfg op bits a amt al out
     | "bi_sqr" =>
       let a ← nextHex
       expectToks op [toHex (bits / 2) (a * a)] out
@@ -297,10 +346,39 @@ def PF.maskByte : Nat := if f.bits == 384 then 0x1F else 0x7F
 def implTie (op : String) (model got : List String) : Except String Unit :=
   expectToks s!"{op}: Impl model differs" model got
 
+/-- the library's `inv` constant (`-p⁻¹ mod 2^bits`); `inv.words[0]` is its low word -/
+def PF.invConst : Nat := if f.bits == 384 then Gen.Consts.fq_inv else Gen.Consts.fr_inv
+
+/-- run a memory-level model (`Impl/LimbsMem.lean`) of an `FpBase` / `Fp` operation on the raw limbs `a`, `b` (objects 1, 2;
+modulus = object 3, `r2` = object 4, the local `tmp` = object 5, a separate output = object 0; `t2`, when given, is a
+double-width value stored in object 5) and require the limbs of object `res` to be the real output.  The judge of the prime
+fields does not know the word size of the build: the model is run for both word sizes of the portable code (64 and 32 bits);
+inside the contracts the results coincide. -/
+def PF.memRun (what : String) (res a b : Nat) (out : List String)
+    (run : (B n inv : Nat) → Impl.Mem.Store → Impl.Mem.Store) (t2 : Option Nat := none) : Except String Unit := do
+  for wb in [64, 32] do
+    let B := 2 ^ wb
+    let n := f.bits / wb
+    let s0 := Impl.Mem.initStore B n (garbageWord wb) a b f.n f.r2
+    let s := match t2 with
+      | some t => Impl.Mem.put s0 5 (Impl.toLimbs B (2 * n) t)
+      | none => s0
+    let s' := run B n (f.invConst % B) s
+    memTie s!"{what} ({wb}-bit words)" [toHex (f.bits / 4) (Impl.Mem.objVal B n s' res)] out
+
 def judgeFp (op : String) (out : List String) : P Unit := do
   match op with
-  | "fp_add" => let a ← f.next; let b ← f.next; let _ ← next; expectToks op [f.hex (a + b)] out
-  | "fp_sub" => let a ← f.next; let b ← f.next; let _ ← next; expectToks op [f.hex (a - b)] out
+  | "fp_add" =>
+    let ra ← nextHex; let rb ← nextHex; let a ← f.un ra; let b ← f.un rb; let al ← next; expectToks op [f.hex (a + b)] out
+    -- `b` is `__restrict`: the signature permits the patterns n, a
+    if al == "n" || al == "a" then
+      if let some (res, ia, ib) := Impl.Mem.aliasIds al then
+        f.memRun s!"{op} {al}" res ra rb out fun B n _ => Impl.Mem.fpAdd B n res ia ib 3
+  | "fp_sub" =>
+    let ra ← nextHex; let rb ← nextHex; let a ← f.un ra; let b ← f.un rb; let al ← next; expectToks op [f.hex (a - b)] out
+    if al == "n" || al == "a" then
+      if let some (res, ia, ib) := Impl.Mem.aliasIds al then
+        f.memRun s!"{op} {al}" res ra rb out fun B n _ => Impl.Mem.fpSub B n res ia ib 3
   | "fp_mul" =>
     let ra ← nextHex; let rb ← nextHex; let a ← f.un ra; let b ← f.un rb; let al ← next
     expectToks op [f.hex (a * b)] out
@@ -308,14 +386,29 @@ def judgeFp (op : String) (out : List String) : P Unit := do
     if f.bits == 384 then
       armTies "fp_mul Fq" "fpbase_384_multiply" 6 [(ra, 6), (rb, 6)] [(Gen.Consts.fq_modulus_var, 6)] [Gen.Consts.fq_inv_var]
         (if al == "a" || al == "b" || al == "ab" then al else "n") "none" out
-  | "fp_dbl" => let a ← f.next; let _ ← next; expectToks op [f.hex (a + a)] out
-  | "fp_neg" => let a ← f.next; let _ ← next; expectToks op [f.hex (-a)] out
+    -- `a`, `b` are not `__restrict`: every pattern is permitted
+    match Impl.Mem.aliasIds al with
+    | some (res, ia, ib) => f.memRun s!"{op} {al}" res ra rb out fun B n inv => Impl.Mem.fpMul B n res ia ib 3 inv 5
+    | none => throw s!"{op}: bad alias token {al}"
+  | "fp_dbl" =>
+    let ra ← nextHex; let a ← f.un ra; let al ← next; expectToks op [f.hex (a + a)] out
+    match Impl.Mem.aliasIds al with
+    | some (res, ia, _) => f.memRun s!"{op} {al}" res ra 0 out fun B n _ => Impl.Mem.fpDbl B n res ia 3
+    | none => throw s!"{op}: bad alias token {al}"
+  | "fp_neg" =>
+    let ra ← nextHex; let a ← f.un ra; let al ← next; expectToks op [f.hex (-a)] out
+    match Impl.Mem.aliasIds al with
+    | some (res, ia, _) => f.memRun s!"{op} {al}" res ra 0 out fun B n _ => Impl.Mem.fpNeg B n res ia 3
+    | none => throw s!"{op}: bad alias token {al}"
   | "fp_sqr" =>
     let ra ← nextHex; let a ← f.un ra; let al ← next
     expectToks op [f.hex (a * a)] out
     if f.bits == 384 then
       armTies "fp_sqr Fq" "fpbase_384_square" 6 [(ra, 6)] [(Gen.Consts.fq_modulus_var, 6)] [Gen.Consts.fq_inv_var]
         (if al == "a" then al else "n") "none" out
+    match Impl.Mem.aliasIds al with
+    | some (res, ia, _) => f.memRun s!"{op} {al}" res ra 0 out fun B n inv => Impl.Mem.fpSqr B n res ia 3 inv 5
+    | none => throw s!"{op}: bad alias token {al}"
   | "fp_inv" =>
     let raw ← nextHex; let a ← f.un raw; let _ ← next
     let i := f.inv a
@@ -326,20 +419,29 @@ def judgeFp (op : String) (out : List String) : P Unit := do
                 implTie op [f.hex (Impl.fpExponentiate f.bits a e)] out
   | "fp_leg" => let a ← f.next; expectToks op [toString (finLegendre a)] out
                 implTie op [toString (Impl.legendre f.n f.bits a)] out
-  | "fp_set" => let x ← nextHex; expectToks op [f.hex (Fin.ofNat f.n x)] out
-  | "fp_get" => let a ← f.next; expectToks op [toHex (f.bits / 4) a.val] out
+  | "fp_set" =>
+    let x ← nextHex; expectToks op [f.hex (Fin.ofNat f.n x)] out
+    f.memRun op 0 x 0 out fun B n inv => Impl.Mem.fpSet B n 0 1 4 3 inv 5
+  | "fp_get" =>
+    let ra ← nextHex; let a ← f.un ra; expectToks op [toHex (f.bits / 4) a.val] out
+    f.memRun op 0 ra 0 out fun B n inv => Impl.Mem.fpGet B n 0 1 3 inv 5
   | "fp_imf" =>
     -- into_montgomery_form on arbitrary stored limbs x < 2^bits: result represents x mod p
     let x ← nextHex; expectToks op [f.hex (Fin.ofNat f.n x)] out
+    -- in place by construction: multiply(*this, r2)
+    f.memRun op 1 x 0 out fun B n inv => Impl.Mem.fpIntoMont B n 1 4 3 inv 5
   | "fp_red" =>
     -- reduce: one conditional subtraction; defined for x < 2p
     let x ← nextHex
-    if x < 2 * f.n then expectToks op [toHex (f.bits / 4) (x % f.n)] out
+    if x < 2 * f.n then
+      expectToks op [toHex (f.bits / 4) (x % f.n)] out
+      f.memRun op 0 x 0 out fun B n _ => Impl.Mem.reduce B n 0 1 3
   | "fp_mred" =>
     -- Montgomery reduction of T < p·2^bits : T·R⁻¹ mod p, canonical
     let t ← nextHex
     if t < f.n * 2 ^ f.bits then
       expectToks op [toHex (f.bits / 4) ((Fin.ofNat f.n t) * f.Rinv).val] out
+      f.memRun op 0 0 0 out (fun B n inv => Impl.Mem.montReduce B n 0 5 3 inv) (some t)
   | "fp_pred" =>
     let a ← f.next; let b ← f.next
     expectToks op [boolTok (a == 0), boolTok (a == 1), boolTok (a == b)] out
